@@ -9,6 +9,7 @@ import (
 	"strconv"
 	"syscall"
 	"time"
+	_ "time/tzdata" // TZ names resolve also where the system has no time zone data base
 
 	"github.com/notaryproject/notation-core-go/signature"
 )
